@@ -242,3 +242,31 @@ package http2
 //@ -- what the serve loop maintains between frames, and what the framer guarantees about a frame it hands over
 //@ pure func connInv(sc *serverConn) bool = streamsOK(sc) && inflowOK(sc.inflow) && (forall id uint32 :: mapHas(sc.streams, id) ==> inflowOK(mapGet(sc.streams, id).inflow)) && (forall id uint32 :: mapHas(sc.streams, id) && mapGet(sc.streams, id).state == 1 ==> mapGet(sc.streams, id).body != nil) && connLedger(sc) <= 2147483647 && owedByBodies >= 0 && sc.hs != nil && sc.srv != nil && sc.handler != nil && sc.conn != nil && sc.writeSched != nil && sc.curClientStreams < 4294967295
 //@ pure func frameWF(f Frame) bool = (isptr(DataFrame, f) ==> unboxptr(DataFrame, f).FrameHeader.valid && len(unboxptr(DataFrame, f).data) <= unboxptr(DataFrame, f).FrameHeader.Length && unboxptr(DataFrame, f).FrameHeader.Length <= 16777215)
+
+//@ -- C12, client transport: one piece of request body never exceeds the stream/connection windows, the caller's
+//@ -- bound, or the peer's CURRENT max frame size (re-read on every call; the scratch buffer size is not a bound)
+//@ func sync.(*Mutex).Lock
+//@   trusted
+//@   assigns nothing
+//@ func sync.(*Mutex).Unlock
+//@   trusted
+//@   assigns nothing
+//@ -- waiting on the connection's condition variable lets the read loop change anything; what is assumed to hold
+//@ -- again on wake-up is that the peer's max frame size is a validated SETTINGS value
+//@ func sync.(*Cond).Wait :: c
+//@   trusted
+//@   assigns unrestricted
+//@   ensures forall cc *ClientConn :: cc != nil ==> 16384 <= cc.maxFrameSize && cc.maxFrameSize <= 16777215
+//@ func context.Context.Err :: c -> err
+//@   trusted
+//@   pure
+
+//@ writers [C12:connection-window-link-set-once] outflow fields conn only (*outflow).setConnFlow,(*serverConn).newStream
+//@ func (*clientStream).awaitFlowControl :: cs, maxBytes -> taken, err
+//@   props C12
+//@   requires [C12:callers-bound-positive] maxBytes >= 1
+//@   requires cs != nil && cs.cc != nil && cs.cc.cond != nil && cs.ctx != nil && cs.flow.conn != cs.flow
+//@   requires 16384 <= cs.cc.maxFrameSize && cs.cc.maxFrameSize <= 16777215
+//@   assigns unrestricted
+//@   ensures [C12:request-body-piece-within-callers-bound-and-current-max-frame-size] err == nil && taken != 0 ==> 1 <= taken && taken <= maxBytes && taken <= old(cs.cc).maxFrameSize
+//@   loop 1 invariant cc == old(cs.cc) && cc != nil && cs != nil && 16384 <= cc.maxFrameSize && cc.maxFrameSize <= 16777215 && cs.flow.conn != cs.flow
